@@ -57,7 +57,7 @@ CLAIMED["C16"] = dict(cat="fault_enumeration",
    ref="5 C16", note="Config is exempt from byte identity (is_hot). After the hot/cold repair the tree-pack clause is asserted for packs known to the index. Equivalence read-back uses non-rejecting copies of the stores.",
    tech="deterministic simulation: per-op invariant over the combined op log of two simulated stores + twin-world equivalence + fault injection")
 CLAIMED["C19"] = dict(cat="exploration",
-   text="Seeded simulation of two worlds fed the same program (backup, forget, repacking prune, check +/- read-data, full read-back, get a snapshot by full id): in one world operations alternate between a handle with a cache directory on tmpfs and an uncached handle on the same SimStore, with cache faults planted between operations (truncated/extended/deleted entries, entries for unknown ids, non-hex names, -tmp- leftovers, a foreign repository directory); in the other every operation is uncached. Per operation the Ok/Err class and the logical result (snapshot trees, check verdict, read-back verdict) must agree, both worlds must end readable and check-clean, and after a listing through the cached handle the cache must hold no snapshot/index entry that the store lacks or that has another size.",
+   text="Seeded simulation of two worlds fed the same program (backup, forget, repacking prune, check +/- read-data, full read-back, get a snapshot by full id): in one world operations alternate between a handle with a cache directory on tmpfs and an uncached handle on the same SimStore, with cache faults planted between operations (truncated/extended/deleted entries, entries replaced by a directory so that reading them fails, entries for unknown ids, non-hex names, -tmp- leftovers, a foreign repository directory); in the other every operation is uncached. Per operation the Ok/Err class and the logical result (snapshot trees, check verdict, read-back verdict) must agree, both worlds must end readable and check-clean, and after a listing through the cached handle the cache must hold no snapshot/index entry that the store lacks or that has another size.",
    ref="5 C19", note="File ids differ between the worlds, so results are compared logically. The cache directory is real tmpfs.",
    tech="deterministic simulation: twin-world differential execution with planted cache states")
 CLAIMED["C20"] = dict(cat="exploration",
